@@ -4,6 +4,10 @@ import json, os, sys
 HERE = os.path.dirname(os.path.abspath(__file__))
 
 CHECKS = {
+ 'C17': dict(technique='runtime monitor: closed-form schedule oracle over the exhaustive parameter grid x attempts -5..200; twin-grader differential (same grader without attempt credit) with recording author schedules',
+             text='Exploration by runtime monitoring: every schedule value on the documented parameter grid (attempts -5..200) is checked online for range, monotonicity, first-attempt value and closed form; every grader call with the feature on is compared entry by entry with a twin grader without it (scaling, ok recomputation, zero grades, note presence/number/percentage, missing attempt).',
+             note='Trusted: closed forms transcribed from docs/graders.md; 4-digit rounding of the credit as documented; reading R10 (attempts below 1 behave as attempt 1, also for direct schedule calls).',
+             ref='DESIGN.md section 4, C17'),
  'C06': dict(technique='runtime monitor: every Munkres.compute() checked online against an exact subset-DP optimum, deep-copy input comparison, CPU watchdog, reuse-vs-fresh differential',
              text='Exploration by runtime monitoring: every solve the workload produces (exhaustive r,c<=3 over {0,1,2}, 4x4 over {0,1}, tens of thousands of random integer/float/tie-heavy/grade-like/near-tie matrices up to 10x10, reuse sequences) is judged by an independent exact oracle. Held = held on the executions observed.',
              note='Trusted: the subset-DP oracle (cross-checked against brute force each run); float totals compared at 1e-9*scale; termination restated as a CPU budget (5 s, retried at 100 s).',
